@@ -740,6 +740,55 @@ func dagPrepare(branch bool) func(w *world, n int) prepared {
 	}
 }
 
+// requests of two different sites on one object: a merge into body T and a cleave of T
+func mixedPrepare(w *world, s *siteDef, site2 string) prepared {
+	if s.name != "labelmap.MergeLabels" || site2 != "labelmap.CleaveLabel" {
+		fatal("no mixed episode for %s / %s", s.name, site2)
+	}
+	t := w.lmLabels(3)
+	sv, a := t+1, t+2
+	okResp(dv.Post(nodeURL(w.lmRepo, "lm2", "merge"), []byte(fmt.Sprintf("[%d,%d]", t, sv))), "mixed seed merge")
+	var p prepared
+	var cleaved uint64
+	p.desc = []string{
+		fmt.Sprintf("1: POST lm2/merge [%d,%d] (body %d holds supervoxels %d,%d)", t, a, t, t, sv),
+		fmt.Sprintf("2: POST lm2/cleave/%d [%d]", t, sv),
+	}
+	p.reqs = []func() bool{
+		func() bool {
+			return dv.Post(nodeURL(w.lmRepo, "lm2", "merge"), []byte(fmt.Sprintf("[%d,%d]", t, a))).Status == 200
+		},
+		func() bool {
+			r := dv.Post(nodeURL(w.lmRepo, "lm2", fmt.Sprintf("cleave/%d", t)), []byte(fmt.Sprintf("[%d]", sv)))
+			if r.Status != 200 {
+				return false
+			}
+			var m struct{ CleavedLabel uint64 }
+			json.Unmarshal(r.Body, &m)
+			cleaved = m.CleavedLabel
+			return true
+		},
+	}
+	p.observe = func(acked []int) ([]view, int) {
+		svs := lmSupervoxels(w, t)
+		var inIdx, mapped []int
+		if svs[a] {
+			inIdx = append(inIdx, 1)
+		}
+		if !svs[sv] {
+			inIdx = append(inIdx, 2)
+		}
+		if lmLabelAt(w, int(a)-1) == t {
+			mapped = append(mapped, 1)
+		}
+		if cleaved != 0 && lmLabelAt(w, int(sv)-1) == cleaved {
+			mapped = append(mapped, 2)
+		}
+		return []view{{"target", inIdx}, {"mapping", mapped}}, 0
+	}
+	return p
+}
+
 // forced schedules at yield points outside the sites' models (liveness)
 func livePrepare(w *world, s *siteDef, yield string) prepared {
 	parent := w.dagP
@@ -814,7 +863,9 @@ func allSites() []siteDef {
 		{name: "annotation.StoreElements", family: "ann", yields: []string{"annotation.StoreElements.commit"}, prepare: annStorePrepare, stressN: [2]int{6, 10}, rounds: [2]int{8, 100}},
 		{name: "annotation.DeleteElement", family: "ann", yields: []string{"annotation.DeleteElement.block", "annotation.DeleteElement.commit"}, prepare: annDeletePrepare, stressN: [2]int{6, 10}, rounds: [2]int{8, 100}},
 		{name: "annotation.MoveElement", family: "ann", yields: []string{"annotation.MoveElement.block", "annotation.MoveElement.commit"}, prepare: annMovePrepare, stressN: [2]int{6, 10}, rounds: [2]int{8, 100}},
-		{name: "labelmap.MergeLabels", family: "lm", yields: []string{"labelmap.MergeLabels.target"}, prepare: lmMergePrepare, stressN: [2]int{5, 8}, rounds: [2]int{8, 100}},
+		{name: "labelmap.MergeLabels", family: "lm", yields: []string{"labelmap.MergeLabels.target"},
+			mixed:   [][2]string{{"labelmap.MergeLabels.target", "labelmap.CleaveLabel"}},
+			prepare: lmMergePrepare, stressN: [2]int{5, 8}, rounds: [2]int{8, 100}},
 		{name: "labelmap.CleaveLabel", family: "lm", yields: []string{"labelmap.cleaveIndex.read"}, prepare: lmCleavePrepare, stressN: [2]int{5, 8}, rounds: [2]int{8, 100}},
 		{name: "labelmap.ChangeLabelIndex", family: "lm", yields: []string{"labelmap.ChangeLabelIndex.read"}, prepare: lmChangeIndexPrepare, stressN: [2]int{8, 12}, rounds: [2]int{10, 300}},
 		{name: "neuronjson.storeAndUpdate", family: "nj", yields: []string{"neuronjson.storeAndUpdate.read", "neuronjson.storeAndUpdate.store"}, prepare: njPrepare, stressN: [2]int{6, 10}, rounds: [2]int{8, 150}},
